@@ -171,7 +171,12 @@ def rule_partial(rep):
             lp = fors[0]
             names = ir.pat_names(lp["pat"])
             it = lp["iter"]
-            zip_ok = it.get("k") == "mcall" and it["name"] == "zip" and it["args"] and it["args"][0].get("k") == "mcall" and it["args"][0]["name"] == "iter_mut" and is_path(it["args"][0]["recv"], pad or "?")
+            # exactly `<input>.iter().zip(<padded>.iter_mut())`: every adaptor in between (filter, skip, rev, ..) would pair a channel's input with
+            # another channel's buffer
+            bound = ir.pat_names(iflets[0]["c"]["pat"])
+            zip_ok = it.get("k") == "mcall" and it["name"] == "zip" and len(it["args"]) == 1 and it["args"][0].get("k") == "mcall" and it["args"][0]["name"] == "iter_mut" \
+                and not it["args"][0]["args"] and is_path(it["args"][0]["recv"], pad or "?") \
+                and it["recv"].get("k") == "mcall" and it["recv"]["name"] == "iter" and not it["recv"]["args"] and len(bound) == 1 and is_path(it["recv"]["recv"], bound[0])
             lenv = {}
             for s in lp["body"]["stmts"]:
                 if s["k"] == "let" and s["pat"]["k"] == "pident":
